@@ -7,6 +7,7 @@ package vc
 
 import (
 	"fmt"
+	"go/types"
 	"strings"
 )
 
@@ -67,6 +68,9 @@ func (e *specEnv) recordHypsRec(x Expr, guard string) {
 	case *EQuant:
 		if n.Forall && n.Lo != nil {
 			e.u.hyps = append(e.u.hyps, hyp{env: e, q: n, guard: guard})
+		}
+		if n.Forall && n.Lo == nil && !n.Sum {
+			e.u.hypsV = append(e.u.hypsV, hyp{env: e, q: n, guard: guard})
 		}
 	}
 }
@@ -171,11 +175,27 @@ func (e *specEnv) goal(x Expr) (g string, extra []string, err error) {
 		}
 	}()
 	var sk []string
+	e.u.keyCands = nil
+	e.u.collectKeys = true
 	g = e.goalSkolem(x, &sk)
+	e.u.collectKeys = false
+	defer func() {
+		if err == nil {
+			extra = append(extra, e.u.keyInstances()...)
+		}
+	}()
 	if len(sk) == 0 && len(e.u.extraCands) == 0 {
 		return g, nil, nil
 	}
 	at := append([]string{}, sk...)
+	// neighbours of the skolem points: facts about adjacent elements (sortedness, shifted copies)
+	for _, k := range sk {
+		if e.u.mode.BV {
+			at = append(at, "(bvadd "+k+" "+e.u.mode.idxLit(1)+")", "(bvsub "+k+" "+e.u.mode.idxLit(1)+")")
+		} else {
+			at = append(at, "(+ "+k+" 1)", "(- "+k+" 1)")
+		}
+	}
 	at = append(at, e.u.mode.idxLit(0))
 	at = append(at, e.u.extraCands...)
 	base := append([]string{}, at...)
@@ -228,6 +248,60 @@ func (u *Unit) instancesAt(sk []string) []string {
 				body := inner.instTerm(h.q.Body, sk, 1)
 				t := "(=> " + andTerm(h.guard, h.env.rangeTerm(h.q, k)) + " " + body + ")"
 				out = append(out, "(assert "+t+")")
+			}
+		}()
+	}
+	return out
+}
+
+// keyInstances: the typed universal hypotheses (forallv) instantiated at the map keys the goal
+// mentions; a key that is read from the heap also gets its typing fact (an instance of the heap
+// typing axiom, which the lighter variants of an obligation leave out).
+func (u *Unit) keyInstances() []string {
+	var out []string
+	cands := u.keyCands
+	u.keyCands = nil
+	if len(cands) == 0 || len(u.hypsV) == 0 {
+		return nil
+	}
+	for _, c := range cands {
+		if strings.HasPrefix(c.term, "(select ") {
+			if ti := u.typeInvariant(c.term, c.typ, 0); ti != "" {
+				out = append(out, "(assert "+ti+")")
+			}
+		}
+	}
+	for _, h := range u.hypsV {
+		func() {
+			defer func() {
+				if r := recover(); r != nil {
+					if _, ok := r.(specErr); ok {
+						return
+					}
+					if _, ok := r.(unsupported); ok {
+						return
+					}
+					panic(r)
+				}
+			}()
+			ty, err := h.env.resolveType(h.q.Type)
+			if err != nil {
+				return
+			}
+			for _, c := range cands {
+				if !types.Identical(ty, c.typ) {
+					continue
+				}
+				inner := h.env.with(h.q.Var, Val{t: c.term, typ: ty})
+				body := inner.term(inner.eval(h.q.Body, tBool), tBool)
+				g := h.guard
+				if ti := u.typeInvariant(c.term, ty, 0); ti != "" {
+					g = andTerm(g, ti)
+				}
+				if g == "" {
+					g = "true"
+				}
+				out = append(out, "(assert (=> "+g+" "+body+"))")
 			}
 		}()
 	}
